@@ -60,19 +60,13 @@ def _run_capped(cmd, cwd, env, input, timeout, mem_mb=None, max_out=None):
     import signal
     max_out = max_out or MAX_OUT
 
-    def pre():
-        os.setsid()
-        if mem_mb:
-            import resource
-            resource.setrlimit(resource.RLIMIT_AS, (mem_mb * 1024 * 1024, mem_mb * 1024 * 1024))
-        try:
-            import resource
-            resource.setrlimit(resource.RLIMIT_CORE, (0, 0))
-        except Exception:
-            pass
-
+    # no preexec_fn: it forces a full fork of this (possibly multi-GB) process for every child; a new
+    # session is requested natively and the address-space limit is applied by a prlimit(1) prefix
+    if mem_mb:
+        lim = ["prlimit", "--as=%d" % (mem_mb * 1024 * 1024), "--core=0", "--"]
+        cmd = (" ".join(lim) + " " + cmd) if isinstance(cmd, str) else lim + list(cmd)
     p = subprocess.Popen(cmd, cwd=cwd, env=env, stdin=subprocess.PIPE if input is not None else subprocess.DEVNULL,
-                         stdout=subprocess.PIPE, stderr=subprocess.PIPE, shell=isinstance(cmd, str), preexec_fn=pre)
+                         stdout=subprocess.PIPE, stderr=subprocess.PIPE, shell=isinstance(cmd, str), start_new_session=True)
     bufs = [bytearray(), bytearray()]
     over = [False]
 
